@@ -168,7 +168,7 @@ def worker(case: Dict[str, Any]) -> CaseResult:
     spec, feats, gen = generate_schema(case["seed"] * 100003 + case["idx"], set(), size=case.get("size", "m"), descriptions=True)
     feats = set(feats)
     enrich(spec, gen, rng, feats)
-    sdl = spec.sdl()
+    sdl = case.get("_sdl") or spec.sdl()
     try:
         src = build_schema(sdl)
         if validate_schema(src):
@@ -272,7 +272,7 @@ def run(tier: str, seed: int) -> int:
 
 
 def replay(data) -> int:
-    case = {k: v for k, v in data["case"].items() if not k.startswith("_")}
+    case = dict(data["case"])
     res = core.run_forked([case], worker)[0]
     print("status:", res.status, res.note)
     for v in res.violations:
